@@ -437,6 +437,12 @@ class Session:
             self.model = {t.split(':')[0]: self.member_names[t.split(':')[0]].index(t.split(':')[1])
                           for t in last.split(';')}
             self.check_state(kind)
+            # the visiting order is the iteration order of a set (hash dependent): continue from a
+            # canonical configuration so that the rest of the session does not depend on it
+            first = min(seen)
+            self.expr.configure_catalogs(Configuration.from_string(first))
+            self.model = {t.split(':')[0]: self.member_names[t.split(':')[0]].index(t.split(':')[1])
+                          for t in first.split(';')}
             ctx.log(kind, len(seen))
         elif kind == 'FROM_STRING':
             rng = random.Random(a[0])
